@@ -54,7 +54,7 @@ def _parse(res):
                 res.violated.append("<temporal>")
             if "Deadlock reached" in line:
                 res.violated.append("<deadlock>")
-        m = re.match(r"<(\w+) line \d+, col \d+ to line \d+, col \d+ of module (\w+)>: (\d+):(\d+)", line.strip())
+        m = re.match(r"<(\w+) line \d+, col \d+ to line \d+, col \d+ of module (\w+)(?: \([\d ]+\))?>: (\d+):(\d+)", line.strip())
         if m:
             k = m.group(2) + "!" + m.group(1)
             a = res.coverage.get(k, (0, 0))
